@@ -16,6 +16,8 @@ OWN_PREFIX = ("once:", "idx:")
 def own(key):
     if key.startswith("cbsetsrv:"):
         return PROP
+    if key.startswith("health:"):
+        return "C09"   # ARES_FLAG_PRIMARY rule
     if key.startswith("cfg16:"):
         return "C16"   # configured server order seen through ares_dup() in the simulator
     if key.startswith(OWN_PREFIX):
